@@ -235,8 +235,9 @@ def random_notation(rng, stage, max_len=12):
         else:
             prefix = rng.choice(["", "", "&", "+"])
             sym = prefix == "&"
-        pad_l = " " * rng.choice([0, 0, 0, 1])
-        pieces.append(pad_l + prefix + s + " " * rng.choice([0, 0, 0, 1]))
+        # blanks are only rendered where the documented syntax is indifferent to them: after the
+        # block (a blank BEFORE '&'/'+' hides the marker from startswith() and is not grammar)
+        pieces.append(prefix + s + " " * rng.choice([0, 0, 0, 1]))
         expanded += toks + (list(reversed(toks[:-1])) if sym else [])
     return ",".join(pieces), expanded
 
@@ -350,7 +351,10 @@ def random_custom_row(rng, stage):
     r = rng.random()
     if r < 0.6:
         return None
-    k = rng.randint(1, stage) if stage else 0
+    if r < 0.75:   # longer than the stage: the extra bells are covers inside the generator's own rows
+        k = rng.randint(stage, 16)
+    else:
+        k = rng.randint(1, stage) if stage else 0
     row = list(BELL_NAMES[:k])
     rng.shuffle(row)
     return "".join(row)
@@ -604,3 +608,175 @@ class GenHistorySuite:
                         return f"bell {b} moved more than one place between {prev} and {r}"
                 prev = r
         return None
+
+
+# ======================================================================= reference interpreter (C02, C04)
+def reference_rows(stage, start_row, method, bobs, singles, start_index, history):
+    """Rows from the textbook definition.  `method` is a list of place sets, `bobs`/`singles` map a
+    lead index to a list of place sets.  `history` is a list of 'bob' | 'single' | 'next'.
+    A call made before the k-th change fires at the least index f >= k whose lead index carries a
+    definition of it; changes f .. f+len-1 are the call's.  Returns None when some change is not
+    parity-consistent (outside the claim)."""
+    L = len(method)
+    n_next = sum(1 for h in history if h == "next")
+    plan = {}          # change index -> place set overriding the method
+    k = 0
+    pending = None
+    busy_until = -1
+    for h in history:
+        if h in ("bob", "single"):
+            if pending is not None and pending != h:
+                return None                       # both pending: outside the property's quantifier
+            pending = h
+            continue
+        if pending is not None:
+            d = bobs if pending == "bob" else singles
+            li = (k + start_index) % L
+            if li in d:
+                for j, pl in enumerate(d[li]):
+                    plan[k + j] = pl
+                # anything the interrupted call still had planned beyond the new one is dropped
+                for j in list(plan):
+                    if j >= k + len(d[li]):
+                        del plan[j]
+                pending = None
+        k += 1
+    rows, row = [], list(start_row)
+    for i in range(n_next):
+        pl = plan.get(i, method[(i + start_index) % L])
+        src = textbook_change(stage, pl)
+        if src is None:
+            return None
+        row = apply_change(src, row)
+        rows.append(list(row))
+    return rows
+
+
+def tokens_to_str(toks):
+    return ".".join("x" if not t else "".join(BELL_NAMES[p - 1] for p in t) for t in toks)
+
+
+class MethodRowsSuite:
+    """C02/C04/C05: place-notation generators built from grammar strings; histories with calls at
+    every offset of a lead; rows compared with the model AND with the reference interpreter."""
+    name = "method_rows"
+    case_type = "gen_case"
+    chk = "chk_gen"
+    imports = IMPORTS
+    shard = 25
+
+    def __init__(self, with_calls=True, with_reset=False):
+        self.with_calls = with_calls
+        self.with_reset = with_reset
+
+    def one(self, rng, with_calls):
+        stage = rng.randint(3, 16)
+        s, expanded = random_notation(rng, stage, max_len=rng.choice([1, 2, 3, 6, 10]))
+        L = len(expanded)
+        bobs, singles, bob_def, single_def = {}, {}, {}, {}
+        if with_calls:
+            for d, dd in ((bobs, bob_def), (singles, single_def)):
+                for _ in range(rng.randint(1, 2)):
+                    pos = rng.randint(-2 * L, 2 * L)
+                    toks = []
+                    while not toks:
+                        toks = [t for t in (random_change(rng, stage) for _ in range(rng.randint(1, 4))) if t]
+                    d[pos] = toks
+                for pos, toks in d.items():
+                    dd[pos] = tokens_to_str(toks)
+        start_index = rng.randint(-3 * L, 3 * L) if rng.random() < 0.7 else 0
+        custom = random_custom_row(rng, stage)
+        spec = {"kind": "pn", "stage": stage, "method": s, "bob": bob_def if with_calls else None,
+                "single": single_def if with_calls else None, "start_index": start_index, "custom": custom}
+        ref = {"expanded": expanded, "bobs": {str(k): v for k, v in bobs.items()},
+               "singles": {str(k): v for k, v in singles.items()}}
+        return spec, ref, L
+
+    def cases(self, rng, tier):
+        n = 250 if tier == "quick" else 3000
+        for _ in range(n):
+            spec, ref, L = self.one(rng, self.with_calls)
+            nrows = min(3 * L + 5, 150)
+            ops = []
+            pending = None
+            offs = rng.randrange(L)
+            for i in range(nrows):
+                if self.with_calls and (i % L == offs or rng.random() < 0.05):
+                    c = rng.choice(["bob", "single"])
+                    if pending in (None, c):
+                        ops.append(c)
+                        pending = c
+                ops.append("H" if i % 2 == 0 else "B")
+                if rng.random() < 0.3:
+                    pending = None   # (the reference tracks the truth; this only thins the calls)
+            if self.with_reset:
+                cut = rng.randrange(1, len(ops))
+                ops = ops[:cut] + ["reset"] + [o for o in ops if o in ("H", "B")][: 2 * L + 3]
+            yield {"spec": spec, "ops": ops, "ref": ref}
+
+    def run_impl(self, case):
+        out = GenHistorySuite.run_impl(self, case)
+        if self.with_reset and "rows" in out:
+            # model-independent oracle for C05: a freshly constructed generator given only the
+            # operations after the reset
+            cut = case["ops"].index("reset")
+            g = build_impl_generator(case["spec"])
+            rows, ex = run_ops(g, case["ops"][cut + 1:])
+            out["fresh_rows"] = rows
+            out["n_before_reset"] = sum(1 for o in case["ops"][:cut] if o in ("H", "B"))
+        return out
+
+    def to_coq(self, case, out):
+        return GenHistorySuite.to_coq(self, case, out)
+
+    def key(self, case):
+        return json.dumps([case["spec"], case["ops"]], sort_keys=True)
+
+    def nontrivial(self, case, out):
+        return "rows" in out and len(out["rows"]) >= 5
+
+    def _reference(self, case, out):
+        spec, ref = case["spec"], case["ref"]
+        L = len(ref["expanded"])
+        bobs = {(int(k) - 1) % L: v for k, v in ref["bobs"].items()} if spec["bob"] is not None else {(0 - 1) % L: [[1, 4]]}
+        singles = {(int(k) - 1) % L: v for k, v in ref["singles"].items()} if spec["single"] is not None else {(0 - 1) % L: [[1, 2, 3, 4]]}
+        hist = ["next" if o in ("H", "B") else o for o in case["ops"]]
+        if "reset" in hist:
+            return None
+        return reference_rows(spec["stage"], out["start_row"], ref["expanded"], bobs, singles,
+                              spec["start_index"], hist)
+
+    def oracle_C02(self, case, out):
+        if "rows" not in out or any(o in ("bob", "single") for o in case["ops"]):
+            return None
+        want = self._reference(case, out)
+        if want is None:
+            return None
+        got = [r for r, _ in out["rows"]]
+        if got != want[:len(got)] or out["exn"] is not None:
+            i = next((j for j in range(min(len(got), len(want))) if got[j] != want[j]), len(got))
+            return f"row {i} differs from the reference interpreter: {got[i] if i < len(got) else out['exn']} vs {want[i] if i < len(want) else None}"
+        return None
+
+    def oracle_C04(self, case, out):
+        if "rows" not in out:
+            return None
+        want = self._reference(case, out)
+        if want is None:
+            return None
+        got = [r for r, _ in out["rows"]]
+        if got != want[:len(got)] or out["exn"] is not None:
+            i = next((j for j in range(min(len(got), len(want))) if got[j] != want[j]), len(got))
+            return f"row {i} differs from the call rule of the reference interpreter"
+        return None
+
+    def oracle_C05(self, case, out):
+        if "fresh_rows" not in out:
+            return None
+        after = out["rows"][out["n_before_reset"]:]
+        if after != out["fresh_rows"][:len(after)]:
+            return "rows after reset differ from those of a freshly constructed generator"
+        return None
+
+    oracle_C01 = GenHistorySuite.oracle_C01
+    oracle_C03 = GenHistorySuite.oracle_C03
